@@ -13,7 +13,8 @@ namespace Narwhal.Batch
 /-- the shape of the batch-filling loop the model describes (regenerated from the source on every run) -/
 theorem batch_table_ok :
     Narwhal.Generated.maxIovs = 128 ∧ Narwhal.Generated.batchTriesBuffers = true ∧
-    Narwhal.Generated.batchNeverAwaitsBuffer = true ∧ Narwhal.Generated.batchBufferBeforeDequeue = true := by decide
+    Narwhal.Generated.batchNeverAwaitsBuffer = true ∧ Narwhal.Generated.batchBufferBeforeDequeue = true ∧
+    Narwhal.Generated.connLoopSelectFair = true := by decide
 
 def heldSum (ws : List Writer) : Nat := (ws.map (·.held)).sum
 
